@@ -56,6 +56,42 @@ def order_theorem(rep, maxcomps, maxwidth):
             rep.violation({"clause": "HARNESS_itertools_product_order"}, {"widths": widths})
 
 
+def explicit_levels(rep):
+    """levels= that do not cover the data: the call may only be refused - if a design comes back, a column
+    labelled v[l] still has to be the indicator of v = l."""
+    import numpy as np
+    import pandas as pd
+
+    from fv import design
+
+    k = [1, 2, 3, 1, 2, 3, 2]
+    g = ["a", "b", "c", "a", "b", "c", "b"]
+    df = pd.DataFrame({"y": np.arange(7.0), "k": k, "g": g, "x": np.arange(7.0) + 1})
+    for col, vals, lvs in (("k", k, ([1, 2, 4], [1, 2], [4, 2, 1], [1, 2, 3, 4])), ("g", g, (["a", "b", "d"], ["a", "b"], ["d", "b", "a"], ["a", "b", "c", "d"]))):
+        for lv in lvs:
+            for text in (f"y ~ 0 + C({col}, levels=LV)", f"y ~ C({col}, levels=LV)", f"y ~ 0 + C({col}, levels=LV):x", f"y ~ x + (1 | C({col}, levels=LV))"):
+                rep.cov["evaluations"] += 1
+                st, dm = design.build(text, df, extra_namespace={"LV": lv})
+                covered = set(vals) <= set(lv)
+                if st != "ok":
+                    if covered:
+                        rep.violation({"clause": "explicit_levels_covering_the_data_refused", "site": "Call.eval_categorical_box"}, {"formula": text, "levels": lv, "error": str(dm)[:100]})
+                    continue
+                mat = dm.group if "|" in text else dm.common
+                labels = [l for t in mat.terms.values() for l in t.labels]
+                m = np.asarray(mat.design_matrix, dtype=float)
+                xs = np.asarray(df["x"], dtype=float)
+                for j, lab in enumerate(labels):
+                    if "[" not in lab:
+                        continue
+                    lvl = lab[lab.rindex("[") + 1 : lab.rindex("]")]
+                    ind = np.array([1.0 if str(v) == lvl else 0.0 for v in vals])
+                    want = ind * xs if text.endswith(":x") else ind
+                    if not np.array_equal(m[:, j], want) and not (text.startswith("y ~ C(") and covered):
+                        rep.violation({"clause": "column_is_not_the_indicator_its_label_names", "site": "Call.eval_categorical_box", "levels_cover_data": covered}, {"formula": text, "levels": lv, "label": lab, "column": m[:, j].tolist()})
+                        break
+
+
 def main(tier, seed):
     common.use_repo()
     rep = Report("C04", tier, seed)
@@ -73,6 +109,7 @@ def main(tier, seed):
         "sum-coded pieces are decided by C13",
     ]
     order_theorem(rep, 4, 4 if tier == "quick" else 5)
+    explicit_levels(rep)
     from fv import callkinds
 
     callkinds.run(rep, "C04")   # CallKinds.tla: what becomes of the value a call returns
